@@ -61,10 +61,17 @@ def run_twice(n=6, tag="determinism"):
     rdir = new_replay_dir("C06", tag)
     diffs, detail = [], {}
     progs = dict(PROGRAMS)
+    # plus every program the other checks know to be accepted (3 fresh processes each)
+    import pool
+    pooled = {"pool-" + k.replace("/", "-"): v for k, v in pool.programs().items() if not k.startswith("c06/")}
+    progs.update(pooled)
     for name, src in progs.items():
-        files = {"main.oal": src} if src else {"m.oal": "let t = { 'q str };\nlet u x = [x];\n", "main.oal": 'use "m.oal" as m;\nres /m on get -> <m.u m.t>;\n'}
+        if isinstance(src, dict):
+            files = src
+        else:
+            files = {"main.oal": src} if src else {"m.oal": "let t = { 'q str };\nlet u x = [x];\n", "main.oal": 'use "m.oal" as m;\nres /m on get -> <m.u m.t>;\n'}
         outs = []
-        for i in range(n):
+        for i in range(n if name in PROGRAMS else 3):
             # same sources at the same location every time (implicit component names hash the module URL)
             d = os.path.join(rdir, name)
             try:
@@ -85,6 +92,10 @@ def run_twice(n=6, tag="determinism"):
     from vcommon import build_wasmdrv, run
     drv = build_wasmdrv()
     for name, src in progs.items():
+        if isinstance(src, dict):
+            if len(src) != 1:
+                continue
+            src = src["main.oal"]
         if not src:
             continue
         rc, out, t = run([drv], stdin=src, timeout=60, mem_gb=4, extra_env={"WASMDRV_REPEAT": "4", "RUST_BACKTRACE": "0"})
